@@ -153,15 +153,20 @@ def replay_edges(ctx, cfg, tag, nrand, rand_len):
     for k in range(nrand):     # seeded random walks, judged by TLC only
         t = ctx.rng.randint(2, 5)
         jobs.append({"acc": ACCS[k % 2], "limit": ctx.rng.randint(1, 3), "T": t, "tick_ms": tick_for(ctx.rng, t),
-                     "seed": ctx.rng.getrandbits(40), "random": rand_len, "maxcalls": 5})
+                     "seed": ctx.rng.getrandbits(40), "random": rand_len, "maxcalls": 5, "exec": (k // 2) % 2 == 1})
     npaths = 0
     for p in paths:
         acts = [g.edges[ei][1] for ei in p]
         view = json.loads(g.edges[p[0]][0])
         npaths += 1
+        # hand mode (polled at every step) on both acceptors; executor mode (fresh waker per poll, polled
+        # only when the current waker has fired) on both acceptors (thorough) / alternating (quick)
         for acc in ACCS:
             jobs.append({"acc": acc, "limit": view[0], "T": view[1], "tick_ms": tick_for(ctx.rng, view[1]),
-                         "seed": ctx.rng.getrandbits(40), "ops": acts})
+                         "seed": ctx.rng.getrandbits(40), "exec": False, "ops": acts})
+        for acc in ((ACCS[npaths % 2],) if ctx.quick else ACCS):
+            jobs.append({"acc": acc, "limit": view[0], "T": view[1], "tick_ms": tick_for(ctx.rng, view[1]),
+                         "seed": ctx.rng.getrandbits(40), "exec": True, "ops": acts})
     del g
     sfile = os.path.join(ctx.workdir, "%s-schedules.ndjson" % tag)
     tfile = os.path.join(ctx.workdir, "%s-trace.ndjson" % tag)
@@ -173,7 +178,7 @@ def replay_edges(ctx, cfg, tag, nrand, rand_len):
         raise vlib.ToolError("driver recorded %d runs for %d schedules" % (len(runs), len(jobs)))
     flagged = sorted({m["run"] for m in summ["first_mismatches"]})
     # TLC judges the recorded runs: flagged ones first, then as many of the others as the budget allows
-    budget = 250000 if ctx.quick else 4000000
+    budget = 500000 if ctx.quick else 6000000
     order = list(range(len(runs)))
     ctx.rng.shuffle(order)
     order.sort(key=lambda i: 0 if i < nrand else 1)       # the random walks are always judged
@@ -220,12 +225,15 @@ def replay_edges(ctx, cfg, tag, nrand, rand_len):
     cov["driver_mismatches"] += summ["mismatches"]
     cov["random_runs"] += nrand
     cov["trace_records_judged_by_tlc"] += sum(len(x) for k, x in enumerate(rr) if to_check[k] not in rejected_idx)
-    per = cov.setdefault("per_acceptor", {a: {"runs_replayed": 0, "runs_accepted_by_tlc": 0} for a in ACCS})
+    per = cov.setdefault("per_acceptor", {a: {"runs_replayed": 0, "runs_accepted_by_tlc": 0,
+                                              "executor_mode_runs_accepted_by_tlc": 0} for a in ACCS})
     for i, run in enumerate(runs):
         per[acc_of(run)]["runs_replayed"] += 1
     for k, i in enumerate(to_check):
         if i not in rejected_idx:
             per[acc_of(runs[i])]["runs_accepted_by_tlc"] += 1
+            if runs[i][0].get("mode") == "exec":
+                per[acc_of(runs[i])]["executor_mode_runs_accepted_by_tlc"] += 1
     st = cov.setdefault("driver_stats", {})
     for k, v in summ.get("stats", {}).items():
         st[k] = st.get(k, 0) + v
@@ -263,8 +271,9 @@ def run(ctx):
     st = ctx.cov.get("driver_stats", {})
     for a in ACCS:      # every kind of observation must have been made on each acceptor
         seen = {k: st.get(k % a, 0) for k in ("res:%s:ok", "res:%s:tlserr", "res:%s:timeout", "ready:%s:ready",
-                                               "ready:%s:pending")}
-        ctx.cov["per_acceptor"][a]["observed"] = {k.split(":", 2)[0] + ":" + k.split(":", 2)[2]: v for k, v in seen.items()}
+                                               "ready:%s:pending", "exec:res:%s:ok", "exec:res:%s:tlserr",
+                                               "exec:res:%s:timeout", "exec:timeout_after_repoll:%s")}
+        ctx.cov["per_acceptor"][a]["observed"] = {k.replace(":%s", ""): v for k, v in seen.items()}
         if not ctx.violations and min(seen.values()) == 0:
             raise vlib.ToolError("%s acceptor: some kind of observation was never made: %s" % (a, seen))
     if st.get("echo_failed", 0) and not ctx.violations:
@@ -277,9 +286,10 @@ def run(ctx):
     ctx.cov["rule"] = (
         "schedules = init-rooted paths covering every edge of the TLC state graph of TlsAccept (limits 1..3, "
         "calls with scripts complete@t / fail@t / stall, poll_ready with 2 wakers, poll / drop of call futures, "
-        "clock ticks), each replayed on the rustls 0.23 and on the OpenSSL acceptor service, plus seeded random "
+        "clock ticks), each replayed on the rustls 0.23 and on the OpenSSL acceptor service in hand-polling mode and in "
+        "wake-driven executor mode (fresh waker per poll; quick: executor mode on one acceptor per path), plus seeded random "
         "walks (<= 5 concurrent calls, timeout 2..5 ticks) judged by TLC only; distinct_nontrivial = (path, "
-        "acceptor) pairs, distinct by construction, in which a not-ready answer is followed by a release that "
+        "acceptor, mode) triples, distinct by construction, in which a not-ready answer is followed by a release that "
         "must wake the parked waker, or a call resolves (ok / tls error / timeout) after virtual time has passed")
     ctx.cov["constants"] = {"handshake_timeouts_ms": list(TIMEOUTS_MS), "limits": [1, 2, 3],
                             "clock": "Tokio paused clock; resolution instants compared at 1 ms granularity"}
@@ -287,6 +297,9 @@ def run(ctx):
         "virtual time: Tokio's paused clock and timer wheel are trusted (1 ms granularity)",
         "the number of handshakes in progress is measured as the number of live call futures held by the driver",
         "counting wakers observe wake-ups; extra wake-ups are allowed",
+        "executor-mode runs: every poll of a call future uses a fresh waker and happens only after the most recent "
+        "waker fired (or once, seeded, without a wake-up: the future moved to another task); a deadline that does "
+        "not wake the current waker shows as a call still pending when the spec resolves it",
         "a handshake 'completes at t' = the last client bytes it needs become readable at t (zero-latency "
         "in-memory transport); at exactly the timeout the handshake wins because AcceptFut polls it first",
         "payload equality is a differential check by the driver, recorded as echo observations",
